@@ -183,10 +183,10 @@ func (r *Run) loadFindings() {
 }
 
 // Eval counts n executions of real code.
-func (r *Run) Eval(n int)        { r.evaluations.Add(int64(n)) }
-func (r *Run) State(n int)       { r.states.Add(int64(n)) }
-func (r *Run) Transition(n int)  { r.transitions.Add(int64(n)) }
-func (r *Run) Trace(n int)       { r.traces.Add(int64(n)) }
+func (r *Run) Eval(n int)         { r.evaluations.Add(int64(n)) }
+func (r *Run) State(n int)        { r.states.Add(int64(n)) }
+func (r *Run) Transition(n int)   { r.transitions.Add(int64(n)) }
+func (r *Run) Trace(n int)        { r.traces.Add(int64(n)) }
 func (r *Run) Evaluations() int64 { return r.evaluations.Load() }
 
 // Outcome adds one observation to the outcome-class histogram.
